@@ -69,6 +69,68 @@ theorem name_none (w : World) (o : PO)
     have := name_decision w o r hl
     rcases hd with hd | hd <;> rw [hd] at this <;> cases this
 
+/-- name_valid: a successful load has a non-empty name of the form `[a-z0-9][a-z0-9_-]*`,
+    whatever the options, the environment, the files and the directory -/
+theorem name_valid (w : World) (opts : List Opt) (r : Loaded) (h : run w opts = .ok r) :
+    validName r.name = true ∧ r.name ≠ [] := by
+  obtain ⟨o, _, hl⟩ := run_ok_inv w opts r h
+  have hv := decide_name_valid _ _ (name_decision w o r hl)
+  exact ⟨hv, valid_ne_nil _ hv⟩
+
+/-- imperative_invalid_rejected (option level): `WithName` refuses a non-empty name that is not already valid -/
+theorem withName_invalid_rejected (w : World) (o : PO) (n : Str) (hn : n ≠ []) (hv : validName n = false) :
+    applyOpt w o (.withName n) = .error .invalidName := by
+  have hne : normalize n ≠ n := by
+    intro h
+    rcases (normalize_fixed_iff n).mp h with h | h
+    · exact hn h
+    · rw [hv] at h; cases h
+  simp [applyOpt, hne]
+
+/-- imperative_invalid_rejected (whole run): if any `WithName` of the sequence requests an invalid name, no
+    project is loaded -/
+theorem imperative_invalid_rejected (w : World) (opts : List Opt) (n : Str) (hmem : Opt.withName n ∈ opts)
+    (hn : n ≠ []) (hv : validName n = false) : ∃ e, run w opts = .error e := by
+  obtain ⟨e, he⟩ := runOpts_mem_error w opts {} (.withName n) hmem
+    (fun o => ⟨_, withName_invalid_rejected w o n hn hv⟩)
+  exact ⟨e, by simp [run, he]⟩
+
+/-- imperative_invalid_rejected (environment): an invalid non-empty `COMPOSE_PROJECT_NAME` in the project
+    environment, with no explicit name, is rejected by the load -/
+theorem env_name_invalid_rejected (w : World) (o : PO) (n : Str) (hname : o.name = [])
+    (henv : o.env.get cpn = some n) (hn : n ≠ []) (hv : validName n = false) :
+    load w o = .error .invalidName := by
+  apply name_rejected
+  simp [Spec.decide, sourcesOf, hname, henv, Option.filter, hn, hv]
+
+/-- explicit_name_wins: whatever else is configured (environment, files, directory, option order), a successful
+    load with an explicitly requested name has exactly that name -/
+theorem explicit_name_wins (w : World) (opts : List Opt) (r : Loaded) (h : run w opts = .ok r)
+    (hreq : requestedName opts [] ≠ []) : r.name = requestedName opts [] := by
+  obtain ⟨o, ho, hl⟩ := run_ok_inv w opts r h
+  have hn := runOpts_name w opts {} o ho
+  have hd := name_decision w o r hl
+  have hne : o.name ≠ [] := by rw [hn]; exact hreq
+  simp only [Spec.decide, sourcesOf, hne, ne_eq, not_false_eq_true, if_true] at hd
+  by_cases hv : validName o.name = true
+  · simp [hv] at hd
+    rw [← hd]; exact hn
+  · simp [hv] at hd
+
+/-- name_visible_to_interpolation: after a successful load the project environment maps
+    `COMPOSE_PROJECT_NAME` to the project name, `${COMPOSE_PROJECT_NAME}` interpolates to it, and the strings of the
+    model were interpolated against that same environment -/
+theorem name_visible_to_interpolation (w : World) (o : PO) (r : Loaded) (h : load w o = .ok r) :
+    r.env.get cpn = some r.name ∧
+    Template.subst r.env.get "${COMPOSE_PROJECT_NAME}".toList = .ok r.name ∧
+    Template.subst r.env.get w.probe = .ok r.probe := by
+  obtain ⟨_, _, henv, _, hp⟩ := load_ok_inv w o r h
+  have hg : r.env.get cpn = some r.name := by rw [henv]; exact get_cons_self _ _ _
+  refine ⟨hg, ?_, hp⟩
+  have := subst_cpn r.env.get
+  rw [hg] at this
+  exact this
+
 /-! ## the project environment -/
 
 /-- env_any_option_order: after ANY sequence of option calls the project environment is, as an ordered list of
@@ -136,5 +198,93 @@ theorem dotenv_refs_above (cur envMap out : Env) (k t : Str) (ls : List (Str × 
       | .err _ => .error .dotenvParse
       | .panic _ => .error .panic :=
   parseLines_cons cur envMap out k t ls
+
+/-- the rest of the project environment is untouched by the load: every other variable keeps the value the
+    options gave it -/
+theorem load_env_frame (w : World) (o : PO) (r : Loaded) (h : load w o = .ok r) (k : Str) (hk : k ≠ cpn) :
+    r.env.get k = o.env.get k := by
+  obtain ⟨_, _, henv, _, _⟩ := load_ok_inv w o r h
+  rw [henv]
+  have hb : (k == cpn) = false := by simpa using hk
+  simp [Env.get, List.lookup_cons, hb]
+
+/-- dotenv_refines_spec: on env files that exist, `GetEnvFromFile` computes exactly the layers of the
+    specification (later file first), flattened -/
+theorem dotenv_refines_spec (w : World) (cur : Env) (refs : List FileRef) (contents : List (List (Str × Str)))
+    (hfiles : refs.map (lookupFile w) = contents.map (fun ls => some (.file ls))) (acc : List Env) :
+    (getEnvFromFile w cur refs acc.flatten).toOption =
+      (dotenvLayers cur contents acc).toOption.map List.flatten := by
+  induction refs generalizing contents acc with
+  | nil =>
+    cases contents with
+    | nil => rfl
+    | cons c cs => cases hfiles
+  | cons f fs ih =>
+    cases contents with
+    | nil => cases hfiles
+    | cons c cs =>
+      simp only [List.map_cons, List.cons.injEq] at hfiles
+      simp only [getEnvFromFile, hfiles.1, dotenvLayers]
+      have hp := parseLines_spec cur acc.flatten c []
+      cases h1 : parseLines (chain cur acc.flatten) c [] with
+      | error e =>
+        rw [h1] at hp
+        cases h2 : fileLayer cur acc.flatten c [] with
+        | error e2 => rfl
+        | ok out2 => rw [h2] at hp; cases hp
+      | ok out =>
+        rw [h1] at hp
+        cases h2 : fileLayer cur acc.flatten c [] with
+        | error e2 => rw [h2] at hp; cases hp
+        | ok out2 =>
+          rw [h2] at hp
+          cases hp
+          have := ih cs hfiles.2 (out :: acc)
+          simpa using this
+
+/-! ## non-vacuity: concrete worlds on which the hypotheses of the theorems hold -/
+
+/-- a world with all four name sources and a variable `V` defined in OS env, two env files -/
+def exW : World where
+  dir := "My.Dir".toList
+  os := strs ["COMPOSE_PROJECT_NAME=os", "V=o"]
+  files := [[some "f1".toList], [some "F.2".toList]]
+  envFiles := [("a".toList, .file [("V".toList, "a".toList), ("R".toList, "$V".toList), ("X".toList, "1".toList)]),
+               ("b".toList, .file [("X".toList, "2".toList), ("S".toList, "$X$R".toList)])]
+  dotEnv := none
+  probe := "$V$X".toList
+
+def exDoc : List Opt := [.withEnv (strs ["Y=e"]), .withOsEnv, .withEnvFiles (strs ["a", "b"]), .withDotEnv]
+
+def nameOf (r : Except Err Loaded) : Option String := r.toOption.map (fun l => String.ofList l.name)
+def errOf (r : Except Err Loaded) : Option Err := match r with | .error e => some e | .ok _ => none
+def varOf (k : String) (r : Except Err Loaded) : Option String := r.toOption.bind (fun l => (l.env.get k.toList).map String.ofList)
+
+-- explicit name over COMPOSE_PROJECT_NAME over file over directory
+example : nameOf (run exW (.withName "ex".toList :: exDoc)) = some "ex" := by decide
+example : nameOf (run exW exDoc) = some "os" := by decide
+example : nameOf (run { exW with os := strs ["V=o"] } exDoc) = some "f2" := by decide
+example : nameOf (run { exW with os := [], files := [[none]] } exDoc) = some "mydir" := by decide
+-- a file name that normalises to empty falls through to the directory
+example : nameOf (run { exW with os := [], files := [[some "f1".toList], [some "_.".toList]] } exDoc) = some "mydir" := by decide
+-- invalid requests are rejected; nothing yields a name
+example : errOf (run exW (exDoc ++ [.withName "Ex".toList])) = some .invalidName := by decide
+example : errOf (run { exW with os := strs ["COMPOSE_PROJECT_NAME=a.b"] } exDoc) = some .invalidName := by decide
+example : errOf (run { exW with os := [], files := [[none]], dir := "日本".toList } exDoc) = some .emptyName := by decide
+-- environment: explicit over OS over later file over earlier file; references see the variables above
+example : varOf "V" (run exW (.withEnv (strs ["V=e"]) :: exDoc)) = some "e" := by decide
+example : varOf "V" (run exW (exDoc ++ [.withEnv (strs ["V=e"])])) = some "e" := by decide
+example : varOf "V" (run exW exDoc) = some "o" := by decide
+example : varOf "X" (run exW exDoc) = some "2" := by decide
+example : varOf "R" (run exW exDoc) = some "o" := by decide     -- `$V` in file a: the OS value, not the file's own
+-- `$X` in file b resolves to the EARLIER FILE's value (lookup chain: project env, earlier files, earlier lines), `$R` to file a's
+example : varOf "S" (run exW exDoc) = some "1o" := by decide
+example : varOf "COMPOSE_PROJECT_NAME" (run exW exDoc) = some "os" := by decide
+example : (run exW exDoc).toOption.map (fun l => String.ofList l.probe) = some "o2" := by decide
+-- the hypotheses of `env_precedence_documented_order` / `dotenv_later_over_earlier` are satisfiable
+example : (∀ x ∈ exDoc.dropLast, x ≠ Opt.withDotEnv) ∧ (runOpts exW (exDoc.dropLast ++ [.withDotEnv]) {}).toOption.isSome = true := by decide
+example : (getEnvFromFile exW [] ([.named "a".toList] ++ [.named "b".toList]) []).toOption.isSome = true := by decide
+-- an undocumented order: `WithDotEnv` before `WithOsEnv` lets the file value win (covered by `env_any_option_order`)
+example : varOf "V" (run exW [.withEnvFiles (strs ["a"]), .withDotEnv, .withOsEnv]) = some "a" := by decide
 
 end CV.Name
